@@ -29,7 +29,7 @@ Step(ev) ==
     [] ev.a = "remote" -> RemoteAny(ev.k, ev.t) /\ run' = run /\ Judge(ev)
     [] ev.a = "checkpoint" -> CheckpointWith("trim" \in DOMAIN ev /\ ev.trim) /\ run' = run /\ Judge(ev)
     [] ev.a = "crash" -> Crash /\ run' = run
-    [] ev.a = "recover" -> Recover /\ run' = run /\ Judge(ev)
+    [] ev.a = "recover" -> Recover /\ run' = run /\ (IF "panic" \in DOMAIN ev THEN Verdict("the restart sequence failed") ELSE Judge(ev))
     [] OTHER -> Skip /\ Verdict("panic in code under test")
 
 TraceInit == Init /\ l = 1 /\ run = 0
